@@ -254,6 +254,11 @@ pub fn model_boundaries(code: &[u8]) -> Result<Vec<usize>, String> {
 /// program with an arbitrary (symbolic) initial tape window `cells[0..n]` at the pointer;
 /// returns the final window.
 pub fn run_window<C: CellType>(code: &[u8], entry_points: [usize; 3], cells: &[T], max_steps: u64) -> Result<Vec<T>, String> {
+    run_window_at::<C>(code, entry_points, 0, cells, max_steps)
+}
+
+/// As `run_window`, with the window starting at cell offset `lo` (<= 0) relative to the pointer.
+pub fn run_window_at<C: CellType>(code: &[u8], entry_points: [usize; 3], lo: isize, cells: &[T], max_steps: u64) -> Result<Vec<T>, String> {
     with(|c| {
         c.reset_io();
         c.seam_errors.clear();
@@ -261,7 +266,7 @@ pub fn run_window<C: CellType>(code: &[u8], entry_points: [usize; 3], cells: &[T
         c.no_output = true;
     });
     let mut cxt = Box::new(Context::<C>::new(None, None));
-    cxt.memory.make_accessible(0, cells.len() as isize);
+    cxt.memory.make_accessible(lo, lo + cells.len() as isize);
     let mem_ptr = cxt.memory.current_ptr() as u64;
     let mut env = JitEnv::<C> { cxt, entry: entry_points, w: C::BITS as u8, extend_calls: 0 };
     let mut st = State::new(ENTRY_RSP);
@@ -269,7 +274,7 @@ pub fn run_window<C: CellType>(code: &[u8], entry_points: [usize; 3], cells: &[T
     st.regs[RDI] = with(|c| c.ar.konst(64, ctx_addr));
     st.regs[RSI] = with(|c| c.ar.konst(64, mem_ptr));
     let (buf, _) = env.tape();
-    let base = ((mem_ptr - buf) / env.cell_bytes()) as i64;
+    let base = ((mem_ptr - buf) / env.cell_bytes()) as i64 + lo as i64;
     for (i, t) in cells.iter().enumerate() {
         if *t != 0 {
             st.tape.insert(base + i as i64, *t);
